@@ -95,7 +95,7 @@ func init() {
 		Thorough: []HarnessSpec{{Name: "VC18_BootOrderNames", Params: map[string]int{"vsymC18Entries": 8}, NeedReach: []string{"end"}}, {Name: "VC18_LoadOption", NeedReach: []string{"end"}}, {Name: "VC18_LoadOptionStrings", MaxPaths: 200000, TimeoutSec: 600, NeedReach: []string{"end"}}},
 		Bounds: []string{"boot order of 0..3 (quick) / 0..8 entries, all 65 536 values of every entry symbolic",
 			"load option from a reference encoder: symbolic attributes, 2-character ASCII description, one node of each supported kind in a fixed order (PCI, ACPI, hard drive MBR/GPT with signature type 1/2, USB, firmware file, file path of 2 characters, end) with symbolic field values; partition number 1..99, start/size below 2^16 (bounds the hex rendering forks); text forms of the hard-drive and file-path nodes compared byte for byte",
-			"non-ASCII text: description and path name of two UTF-16 code units each, every BMP scalar value except NUL, in a load option with a file-path node (VC18_LoadOptionStrings)"},
+			"non-ASCII text: description and path name of two UTF-16 code units each, every BMP scalar value except NUL, in a load option with a file-path node, the path optionally preceded by 130 fixed characters (node longer than 255 bytes) (VC18_LoadOptionStrings)"},
 		Outside:     []string{"longer boot orders (entries are decoded independently)", "other node orders and repeated nodes, descriptions and paths longer than 2 characters, partition start/size of 2^16 and more", "resolution of names through the boot-entry accessor (GetBootEntry opens <efivars>/<name>-<guid>: covered by C11's path assertion for arbitrary names)"},
 		Assumptions: commonAssumptions,
 	}
@@ -243,6 +243,8 @@ func init() {
 			{Name: "VC15_VerifyReaderFault", NeedReach: []string{"end", "verify-faulted", "verify-clean", "hash-faulted"}},
 			{Name: "VC15_LegacyWriteFaults", NeedReach: []string{"end", "faulted", "clean"}},
 			{Name: "VC15_LegacyReadFaults", NeedReach: []string{"end", "faulted"}},
+			{Name: "VC15_ShortReads", Params: map[string]int{"vsymC11Name": 2}, NeedReach: []string{"end", "ok", "short"}},
+			{Name: "VC15_LegacyShortReads", NeedReach: []string{"end", "ok", "short"}},
 		},
 		Thorough: []HarnessSpec{
 			{Name: "VC15_WriteFaults", Params: map[string]int{"vsymC11Name": 6, "vsymC11Value": 1 << 16}, NeedReach: []string{"end", "faulted", "clean"}},
@@ -254,8 +256,10 @@ func init() {
 			{Name: "VC15_VerifyReaderFault", NeedReach: []string{"end", "verify-faulted", "verify-clean", "hash-faulted"}},
 			{Name: "VC15_LegacyWriteFaults", Params: map[string]int{"vsymC15Value": 4096}, NeedReach: []string{"end", "faulted", "clean"}},
 			{Name: "VC15_LegacyReadFaults", Params: map[string]int{"vsymC15Value": 4096}, NeedReach: []string{"end", "faulted"}},
+			{Name: "VC15_ShortReads", Params: map[string]int{"vsymC11Name": 2}, NeedReach: []string{"end", "ok", "short"}},
+			{Name: "VC15_LegacyShortReads", NeedReach: []string{"end", "ok", "short"}},
 		},
-		Bounds: []string{"thorough tier: names of 6 characters, values up to 65536 bytes (legacy API 4096)", "write variable: every position of the call sequence OpenFile / Write / Close may fail (symbolic fault bits, all combinations), and Write may be short by any symbolic count; read variable: Open / Stat / every Read may fail", "asserted: any injected fault => non-nil error, nothing decoded after a failed read; the same for the legacy package-level writer and reader of efi/attributes (values <= 16 bytes)",
+		Bounds: []string{"thorough tier: names of 6 characters, values up to 65536 bytes (legacy API 4096)", "write variable: every position of the call sequence OpenFile / Write / Close may fail (symbolic fault bits, all combinations), and Write may be short by any symbolic count; read variable: Open / Stat / every Read may fail", "short reads (the file delivers 4..12 stored bytes in up to two short reads without an error, both APIs): the read fails or returns exactly the stored attributes and value", "asserted: any injected fault => non-nil error, nothing decoded after a failed read; the same for the legacy package-level writer and reader of efi/attributes (values <= 16 bytes)",
 			"signer: Sign may fail (symbolic fault bit) in SignPKCS7 (3 content types), in PECOFFBinary.Sign on the shipped test image (error, no signature returned, Signatures() and Bytes() unchanged) and in WriteSignedUpdate combined with all file-system faults (failed signing writes nothing)",
 			"image reader: every one of the ReadAt calls Parse issues on the shipped test image may fail: error and no parsed object; on a doubly signed image every ReadAt call of Verify and Hash may fail (all combinations): never success, error reported, no digest"},
 		Outside:     []string{"a failing Close after a complete read is not asserted (it does not invalidate the data read)", "images other than the shipped unsigned test image for the image-level fault harnesses (the image is concrete there; the fault positions are symbolic)"},
@@ -271,11 +275,13 @@ func init() {
 	}
 	registry["C06"] = &Property{
 		Quick: []HarnessSpec{{Name: "VC06_SignedUpdateLayout", Params: map[string]int{"vsymC06Name": 3, "vsymC06Payload": 40}, MaxDecisions: 2000, NeedReach: []string{"end"}},
-			{Name: "VC06_WrittenUpdateBinding", Params: map[string]int{"vsymC11Name": 2, "vsymC06Payload": 8}, MaxDecisions: 2000, NeedReach: []string{"end"}}},
+			{Name: "VC06_WrittenUpdateBinding", Params: map[string]int{"vsymC11Name": 2, "vsymC06Payload": 8}, MaxDecisions: 2000, NeedReach: []string{"end"}},
+			{Name: "VC06_SignedUpdateLayout", Params: map[string]int{"vsymC06Name": 1, "vsymC06Payload": 1, "vsymC06RawLen": 66000}, MaxDecisions: 2000, TimeoutSec: 300, NeedReach: []string{"end"}}},
 		Thorough: []HarnessSpec{{Name: "VC06_SignedUpdateLayout", Params: map[string]int{"vsymC06Name": 8, "vsymC06Payload": 300}, MaxDecisions: 4000, MaxPaths: 400000, TimeoutSec: 3000, NeedReach: []string{"end"}},
-			{Name: "VC06_WrittenUpdateBinding", Params: map[string]int{"vsymC11Name": 4, "vsymC06Payload": 64}, MaxDecisions: 4000, TimeoutSec: 1200, NeedReach: []string{"end"}}},
+			{Name: "VC06_WrittenUpdateBinding", Params: map[string]int{"vsymC11Name": 4, "vsymC06Payload": 64}, MaxDecisions: 4000, TimeoutSec: 1200, NeedReach: []string{"end"}},
+			{Name: "VC06_SignedUpdateLayout", Params: map[string]int{"vsymC06Name": 1, "vsymC06Payload": 8, "vsymC06RawLen": 66000}, MaxDecisions: 2000, TimeoutSec: 900, NeedReach: []string{"end"}}},
 		Bounds: []string{"name: 3 (quick) / 8 symbolic printable ASCII characters; GUID: all 2^128; attribute mask: all 2^32 (APPEND_WRITE on and off); payload: every length 0..40 (quick) / 0..300, bytes symbolic; clock symbolic; process time zone symbolic (UTC-12..UTC+14, whole hours)",
-			"through Efivarfs.WriteSignedUpdate on the recording file system (name 2 / 4 letters or digits, payload 0..8 / 0..64): one write of attributes || descriptor || payload, and the message digest signed inside the descriptor is the SHA-256 of name || GUID || the attributes written || descriptor timestamp || payload",
+			"one instance with a signing certificate of 66000 symbolic bytes (natively a real certificate with an opaque extension of that size): the SignedData and dwLength exceed 64 KiB (name 1 character, payload 0..1 / 0..8)", "through Efivarfs.WriteSignedUpdate on the recording file system (name 2 / 4 letters or digits, payload 0..8 / 0..64): one write of attributes || descriptor || payload, and the message digest signed inside the descriptor is the SHA-256 of name || GUID || the attributes written || descriptor timestamp || payload",
 			"decided: output = 16-byte timestamp (UTC calendar fields of the clock, other fields zero) || dwLength=24+len(SignedData), revision 0x0200, type 0x0EF1, PKCS7 type GUID in wire order || bare detached SignedData equal byte for byte to the reference encoding over UTF-16LE(name)||GUID||attrs||timestamp||payload || payload"},
 		Outside:     []string{"non-ASCII names", "acceptance by real firmware", "payload kinds beyond raw bytes (a database payload is its encoding, C07)"},
 		Assumptions: append([]string{"signature, hash and time models as in C05; native replays run with TZ set from the model (Etc/GMT±h)"}, commonAssumptions...),
@@ -329,7 +335,7 @@ func init() {
 		Quick: []HarnessSpec{{Name: "VC16_ThirdParty", NeedReach: []string{"end"}}, {Name: "VC16_ThirdParty", Params: map[string]int{"vsymC16Content": 130}, NeedReach: []string{"end"}}, {Name: "VC16_Fixtures", NeedReach: []string{"end"}}},
 		Thorough: []HarnessSpec{{Name: "VC16_ThirdParty", NeedReach: []string{"end"}}, {Name: "VC16_ThirdParty", Params: map[string]int{"vsymC16Content": 0}, NeedReach: []string{"end"}},
 			{Name: "VC16_ThirdParty", Params: map[string]int{"vsymC16Content": 200}, TimeoutSec: 1200, NeedReach: []string{"end"}}, {Name: "VC16_Fixtures", NeedReach: []string{"end"}}},
-		Bounds: []string{"thorough tier: content of 0, 4 and 200 symbolic bytes", "producer language (assumption about OpenSSL smime/cms with SHA-256 and sbsign, see DESIGN.md C16): attributes contentType(data), signingTime, messageDigest, optionally sMIMECapabilities with an opaque body of 7, 8, 48 or 150 bytes (signed attributes of 105..270 bytes: all three DER length forms), in DER SET OF order (by encoding: a short capability list sorts before or between the standard attributes); with/without outer ContentInfo; digest algorithm with/without NULL parameters; content (4 or 130 symbolic bytes, as OCTET STRING: short and long length form) attached or detached — all 40 combinations; serials and certificate bytes symbolic; the blob is built by the harness's reference encoder, not by the library",
+		Bounds: []string{"thorough tier: content of 0, 4 and 200 symbolic bytes", "producer language (assumption about OpenSSL smime/cms with SHA-256 and sbsign, see DESIGN.md C16): attributes contentType(data), signingTime, messageDigest, optionally sMIMECapabilities with an opaque body of 7, 8, 48 or 150 bytes (signed attributes of 105..270 bytes: all three DER length forms), optionally a further unknown attribute (opaque 20-byte body under the signingCertificateV2 OID), in DER SET OF order (by encoding: a short capability list sorts before or between the standard attributes); with/without outer ContentInfo; digest algorithm with/without NULL parameters; content (4 or 130 symbolic bytes, as OCTET STRING: short and long length form) attached or detached — all 80 combinations per content length; serials and certificate bytes symbolic; the blob is built by the harness's reference encoder, not by the library",
 			"decided: parses; signedBytes() and Marshal() of the parsed attributes equal the signed SET byte for byte; Verify(signer's certificate) is true and Verify(other certificate) is false", "the four third-party artefacts shipped under pkcs7/testdata and authenticode/testdata parse (concrete run; certificates through the real crypto/x509)"},
 		Outside:     []string{"that the OpenSSL CLI emits exactly this language for each option combination (OpenSSL is C code outside the engine)", "verification of the shipped artefacts against their certificates (real RSA is outside the signature model)", "additional signed attributes beyond sMIMECapabilities; since fix 4b3bc85 verification uses the original attribute bytes, so attribute order no longer affects verification"},
 		Assumptions: append([]string{"signature, hash and time models as in C05"}, commonAssumptions...),
